@@ -1,3 +1,5 @@
+//go:build c01
+
 package main
 
 import (
@@ -10,34 +12,6 @@ import (
 
 	"github.com/jhalter/mobius/hotline"
 )
-
-func be16(n int) []byte { b := make([]byte, 2); binary.BigEndian.PutUint16(b, uint16(n)); return b }
-func be32(n int) []byte { b := make([]byte, 4); binary.BigEndian.PutUint32(b, uint32(n)); return b }
-
-func guard(f func() string) (res string) {
-	defer func() {
-		if r := recover(); r != nil {
-			res = "panic"
-		}
-	}()
-	return f()
-}
-
-func exact(b []byte) []byte {
-	q := make([]byte, len(b))
-	copy(q, b)
-	return q[:len(q):len(q)]
-}
-
-func bytesListCanon(items [][]byte) string {
-	var sb strings.Builder
-	fmt.Fprintf(&sb, "ok %d", len(items))
-	for _, it := range items {
-		sb.WriteByte(' ')
-		sb.WriteString(hx(it))
-	}
-	return sb.String()
-}
 
 func goPathDecode(p []byte) string {
 	return guard(func() string {
